@@ -179,20 +179,25 @@ def main():
               f"  MaxIts <- MaxItsA\n  TdMasks <- AllMasks\n  InitSel <- InitAll\n  SThr <- SThrHalf\n")
     rp = hvsrobj.Replayer(run, hvsrpy, graph, ALPHA6[:alpha_n], 2, nw, 6, consts, focus={"Init"})
     hook = WHook(run, hvsrpy, 2)
-    insts = (("N", "N"), ("L", "L")) if quick else (("N", "N"), ("L", "L"), ("N", "L"), ("L", "N"))
+    insts = (("N", "N"), ("L", "L"), ("N", "L")) if quick else (("N", "N"), ("L", "L"), ("N", "L"), ("L", "N"))
     for fenc, aenc in insts:
         rp.replay(hvsrobj.Instance(6, fenc, aenc), state_hook=hook, step_hook=hook.light)
     rp.validate_pending()
     run.notes["replay_NA2"] = rp.stats
-    # the sampled assignments often repeat a curve; one assignment with pairwise different curves on and across the azimuths
-    exd = hvsrobj.cfg_text(2, nw, 6, alpha, "Ranges6s", "NSetA", "MaxItsA", "InitDistinct", export=True)
-    resd, graphd = hvsrobj.export_graph(exd, "C11-distinct", {}, timeout=3000)
-    run.add_tlc(resd, "HvsrObject NA=2 export from InitDistinct (curves 1,2,3 / 3,4,5)")
-    rpd = hvsrobj.Replayer(run, hvsrpy, graphd, ALPHA6[:alpha_n], 2, nw, 6, consts, focus={"Init"})
-    for fenc, aenc in (("N", "N"), ("L", "L"), ("N", "L"), ("L", "N")):
-        rpd.replay(hvsrobj.Instance(6, fenc, aenc), state_hook=hook, step_hook=hook.light)
-    rpd.validate_pending()
-    run.notes["replay_NA2_distinct"] = rpd.stats
+
+    # 2 azimuths x 4 windows on the 6-point grid: accept patterns such as (2, 4) and (1, 5 - n/a) make the TOTAL number of accepted
+    # windows equal to the number of frequency samples while the azimuths differ in count (array-shape coincidences)
+    ex4 = hvsrobj.cfg_text(2, 4, 6, alpha, "Ranges6s", "NSetA", "MaxItsA", "InitDistinct", export=True, nxt="NextRejectOnly")
+    res4, graph4 = hvsrobj.export_graph(ex4, "C11-export4", {}, timeout=3000)
+    run.add_tlc(res4, "HvsrObject NA=2 NW=4 NextRejectOnly export from InitDistinct (all per-azimuth accept patterns)")
+    consts4 = consts.replace(f"NW = {nw}", "NW = 4")
+    rp4 = hvsrobj.Replayer(run, hvsrpy, graph4, ALPHA6[:alpha_n], 2, 4, 6, consts4, focus={"Init"})
+    n_before = hook.n
+    for fenc, aenc in (("N", "N"), ("L", "L")):
+        rp4.replay(hvsrobj.Instance(6, fenc, aenc), state_hook=hook)
+    rp4.validate_pending()
+    run.notes["replay_NA2_NW4"] = rp4.stats
+    run.notes["accessor_comparisons_NW4"] = hook.n - n_before
 
     # NA = 1: the weighted accessors of a one-azimuth object against the exact traditional statistics
     ex1 = hvsrobj.cfg_text(1, 3, 6, "Alpha6a", "Ranges6", "NSetA", "MaxItsA", "InitEnv", export=True)
